@@ -828,6 +828,14 @@ def _auto(ctx, prop, lib):
             up |= nxt
             frontier = nxt
         classes = {cq for cq, (node, m) in ctx.repo.classes.items() if os.path.relpath(m.path, ctx.repo.root) in files}
+        # helpers of the plumbing: library functions that a plumbing function calls directly to compute what it
+        # hands to the anchored code - restricted to the CLI option parsers of cli/_util.py (parse_field_param, parse_bins, ...), compared in full
+        helpers = set()
+        for f in up:
+            for c in g.get(f, ()):
+                if c in lib and c not in seen and c not in up and c.startswith('cooler.cli._util.'):
+                    helpers.add(c)
+        seen = seen | helpers
         _REACH_CACHE[key] = (seen | up, up - seen, anchored | classes | up)
     reach, up_only, targets = _REACH_CACHE[key]
     _PLUMBING[(ctx.repo.root, prop)] = (up_only, targets)
